@@ -94,6 +94,8 @@ func (r *funcRun) entryState() *State {
 	o := &Obligation{Name: r.c.Target + "/cover:requires", Fn: r.c.Target, Kind: "cover", Props: r.c.Serves, Cmds: append([]string(nil), st.cmds...),
 		Goal: BoolLit(false), Theory: r.c.Theory, IsCover: true, Src: r.c.Src}
 	r.obls = append(r.obls, o)
+	r.entrySt = st.clone()
+	r.cutDone = map[int]bool{}
 	return st
 }
 
